@@ -383,6 +383,10 @@ Denotes(rv, v) ==
                /\ \A i \in 1..Len(v.rows) : DenotesTags(rv.rows[i], v.rows[i])
          [] OTHER -> Same(rv, v)
 
+\* the text contains one of the optional Uri escapes whose meaning the published grammar leaves open
+\* (does `\:` denote ":" or the two characters?): such texts are neither written by the spec writer nor judged
+HasOptUriEsc(t) == \E i \in 1..(Len(t) - 1) : t[i] = 92 /\ t[i + 1] \in {58, 47, 63, 35, 91, 93, 64, 38, 61, 59}
+
 \* the text t is a sentence of the grammar that denotes v
 ZincDenotes(t, v) == LET r == ZincRead(t) IN r.ok /\ Denotes(r.v, v)
 \* diagnostic
